@@ -136,7 +136,7 @@ def parse(out):
     for k, v in re.findall(r"^Runtime ([A-Za-z ]+): ([0-9.e+-]+)s", out, re.M):
         rt[k.strip()] = rt.get(k.strip(), 0.0) + float(v)
     res["runtime"] = rt
-    res["sat_calls"] = len(re.findall(r"^SAT checker", out, re.M)) + len(re.findall(r"^Running propositional reduction", out, re.M))
+    res["sat_calls"] = len(re.findall(r"^SAT checker", out, re.M))
     m = re.search(r"Generated (\d+) VCC\(s\), (\d+) remaining", out)
     res["vccs"] = (int(m.group(1)), int(m.group(2))) if m else (0, 0)
     m = re.search(r"(\d+) variables, (\d+) clauses", out)
@@ -187,7 +187,8 @@ def classify(job, res, timed_out):
         if unwind:
             return INCONCLUSIVE, "unwinding assertion failed: " + unwind[0]["loc"], unwind
         if real:
-            return VIOLATION, "failed checks", real
+            # same code as the main harness, which reports (and replays) them
+            return INCONCLUSIVE, "witness twin: other checks fail too (reported by the main harness): " + real[0]["desc"], real
         if not failed:
             return INCONCLUSIVE, "vacuous: end of harness is unreachable", []
         return PASS, "witness reached", []
@@ -217,6 +218,10 @@ def run_job(job, logdir):
     if job.stubbing:
         cmd += ["-Z", "stubbing"]
     cmd += list(job.extra_args)
+    if job.kind == "witness" and os.environ.get("VERIF_WITNESS_PLAYBACK"):
+        # optional: harvest a concrete end-to-end input as an evidence sample (the trace
+        # extraction needs several GB on the larger harnesses, so it is off by default)
+        cmd += ["-Z", "concrete-playback", "--concrete-playback=print"]
     if job.unwindset:
         cmd += ["--cbmc-args", "--unwindset", job.unwindset]
     log = os.path.join(logdir, safe + ".log")
@@ -238,7 +243,21 @@ def run_job(job, logdir):
     out = open(log, errors="replace").read()
     res = parse(out)
     status, reason, failed = classify(job, res, timed_out)
-    return {"job": job, "status": status, "reason": reason, "failed": failed, "res": res, "wall": wall, "log": log}
+    sample = None
+    if job.kind == "witness":
+        sample = witness_sample(out)
+    return {"job": job, "status": status, "reason": reason, "failed": failed, "res": res, "wall": wall, "log": log,
+            "witness_sample": sample}
+
+
+def witness_sample(out):
+    """Concrete input that reaches the end of the harness (from Kani's concrete playback of the
+    witness twin's final assert!(false)): a real case of this run."""
+    m = re.search(r"reachability witness[^\n]*\n(.*?)kani::concrete_playback_run", out, re.S)
+    if not m:
+        return None
+    vals = re.findall(r"^\s*// (.+)$", m.group(1), re.M)
+    return vals[:64] if vals else None
 
 
 def run_jobs(jobs, logdir, total_mem_gb=52, max_workers=14):
@@ -324,7 +343,8 @@ def run_replay(art):
         shutil.copyfile(lock, os.path.join(art, "Cargo.lock"))
     detail = []
     reproduced = False
-    for profile in ([], ["--release"]):
+    # `cargo kani playback` only supports the dev profile (which is what Kani models).
+    for profile in ([],):
         cmd = ["cargo", "kani", "playback", "-Z", "concrete-playback"] + profile + ["--"] + ["kani_concrete_playback"]
         p = subprocess.run(cmd, cwd=art, env=env, stdout=subprocess.PIPE, stderr=subprocess.STDOUT, text=True, timeout=1800)
         tag = "release" if profile else "dev"
